@@ -107,6 +107,10 @@ pub struct Case {
     /// not start at the beginning of the path
     #[serde(default)]
     pub init_offset: Option<f64>,
+    /// set-speed runs: the train state is built without an initial speed (it reads 0) although the trace starts
+    /// rolling - the trace, not the state, is what the run has to follow
+    #[serde(default)]
+    pub init_speed_unset: bool,
 }
 
 // ------------------------------------------------------------------------------------------------
@@ -519,7 +523,11 @@ pub fn generate(rng: &mut Rng, focus: &str, thorough: bool) -> Case {
         sim_days: if rng.chance(0.5) { None } else { Some(*rng.pick(&[1, 7, 30])) },
         hash_seed: rng.next(),
         init_offset: None,
+        init_speed_unset: false,
     };
+    if let Kind::SetSpeed { v0, .. } = &c.kind {
+        c.init_speed_unset = *v0 > 0.0 && rng.chance(0.12);
+    }
     // initial front position beyond the train length, inside the first link of the route
     if rng.chance(0.2) {
         let tl = train_ref(&c.train, 0.0).length;
@@ -605,7 +613,9 @@ fn spurious_stall(sim: &SpeedLimitTrainSim, e: &anyhow::Error, links: &[Link], r
 // monitors
 // ------------------------------------------------------------------------------------------------
 
-fn check_kinematics(ctx: &mut Ctx, tr: &Traj, links: &[Link], route: &[usize], length: f64) {
+/// `speed_before_first`: the speed before the first step when it is not the initial state's (a set-speed run
+/// follows its trace from the trace's first sample on)
+fn check_kinematics(ctx: &mut Ctx, tr: &Traj, links: &[Link], route: &[usize], length: f64, speed_before_first: Option<f64>) {
     let s = &tr.states;
     let mut dist = s[0].total_dist.value;
     let mut bases = vec![0.0];
@@ -619,7 +629,8 @@ fn check_kinematics(ctx: &mut Ctx, tr: &Traj, links: &[Link], route: &[usize], l
         if !close(b.time.value - a.time.value, dt, 1e-12, 1e-9, b.time.value.abs()) {
             ctx.violate("C12", "kinematics", "time advances by exactly the step size", format!("step {k}: time {} -> {} with dt {dt}", a.time.value, b.time.value));
         }
-        let adv = dt * 0.5 * (a.speed.value + b.speed.value);
+        let va = if k == 1 { speed_before_first.unwrap_or(a.speed.value) } else { a.speed.value };
+        let adv = dt * 0.5 * (va + b.speed.value);
         if (b.offset.value - a.offset.value - adv).abs() > 1e-5 {
             ctx.violate("C12", "kinematics", "front advances by dt x mean speed", format!("step {k}: offset {} -> {} (delta {}), dt*mean speed = {adv} (v {} -> {})", a.offset.value, b.offset.value, b.offset.value - a.offset.value, a.speed.value, b.speed.value));
         }
@@ -1085,7 +1096,10 @@ pub fn execute(case: &Case, ctx: &mut Ctx) {
                 Ok(t) => t,
                 Err(_) => return,
             };
-            let its = InitTrainState::new(Some(case.init_time * uc::S), case.init_offset.map(|o| o * uc::M), Some(*v0 * uc::MPS));
+            let its = InitTrainState::new(Some(case.init_time * uc::S), case.init_offset.map(|o| o * uc::M), if case.init_speed_unset { None } else { Some(*v0 * uc::MPS) });
+            if case.init_speed_unset {
+                ctx.hit("probe.set_speed.rolling_start_with_unset_state_speed");
+            }
             let tsb = TrainSimBuilder::new("t0".into(), tc, con0.clone(), None, None, Some(its));
             let mut t = case.init_time;
             let mut times = vec![t];
@@ -1209,7 +1223,7 @@ pub fn execute(case: &Case, ctx: &mut Ctx) {
             if !*shipped_walk || case.save_interval == Some(1) {
                 ctx.layer = "train-stepping";
                 check_set_speed(ctx, &tr, *v0, trace, case.init_time, &con_init);
-                check_kinematics(ctx, &tr, links, &route, r.length);
+                check_kinematics(ctx, &tr, links, &route, r.length, Some(*v0));
                 check_resistance(ctx, &tr, links, &route, &r);
                 // (the set-speed simulation keeps its path private: read it the way a user would, from a saved copy)
                 if let Some(path) = serde_yaml::to_value(&sim).ok().and_then(|v| v.get("path_tpc").cloned()).and_then(|v| serde_yaml::to_string(&v).ok()).and_then(|y| <PathTpc as altrios_core::traits::SerdeAPI>::from_yaml(y).ok()) {
@@ -1316,7 +1330,7 @@ pub fn execute(case: &Case, ctx: &mut Ctx) {
             ctx.nontrivial = tr.states.len() >= 20;
             if tr.states.len() > 1 {
                 check_limit_run(ctx, tr, links, &route, &case.train, &r);
-                check_kinematics(ctx, tr, links, &route, r.length);
+                check_kinematics(ctx, tr, links, &route, r.length, None);
                 check_resistance(ctx, tr, links, &route, &r);
                 let n_deliv = tr.delivered.last().copied().unwrap_or(route.len()).min(route.len());
                 check_backward_sweep(ctx, &sim.state, &sim.train_res, &sim.path_tpc, links, &route[..n_deliv], &r, case.hash_seed);
@@ -1711,6 +1725,11 @@ pub fn shrink(case: &Case) -> Vec<Case> {
     if case.init_offset.is_some() {
         let mut c = case.clone();
         c.init_offset = None;
+        out.push(c);
+    }
+    if case.init_speed_unset {
+        let mut c = case.clone();
+        c.init_speed_unset = false;
         out.push(c);
     }
     out
